@@ -787,6 +787,11 @@ func (c *Canary) send(state *State, payload []byte, flags tcp.Flag) error {
 
 	}
 
+	if ae == nil {
+		// neither an arp entry nor a route to the peer: the frame cannot be addressed
+		return fmt.Errorf("no arp entry or route for %s", dst.String())
+	}
+
 	ef := ethernet.Frame{
 		Source:      c.networkInterfaces[0].HardwareAddr,
 		Destination: ae.HardwareAddress,
